@@ -393,11 +393,11 @@ def _interval_assembly(ctx) -> None:
 
 def run(ctx) -> None:
     ctx.explanation = EXPLANATION
-    _fraction_scale(ctx)
-    _rust_arith(ctx)
-    _rust_round_last(ctx)
-    _rust_order_guards(ctx)
-    _interval_assembly(ctx)
+    ctx.step(_fraction_scale, ctx)
+    ctx.step(_rust_arith, ctx)
+    ctx.step(_rust_round_last, ctx)
+    ctx.step(_rust_order_guards, ctx)
+    ctx.step(_interval_assembly, ctx)
     ctx.expect_min("FRACTION-SCALE", 6)
     ctx.expect_min("INTERVAL.assembly", 5)
     ctx.expect_min("RUST-ARITH", 4)
